@@ -170,6 +170,11 @@ def instances(tier):
     from ..shapes import real_loop_shapes
     for sid, shape in real_loop_shapes().items():
         out.append(Instance("C01", "sys_common:s_real_loop", dict(shape=shape, oracle="c01"), name="RL/" + sid, uf=True, cover=["solved"], weight=20))
+    from ..shapes import variants as _variants
+    for sid, shape in _variants().items():
+        if None is not None and sid not in None:
+            continue
+        out.append(Instance("C01", "sys_common:s_run", dict(shape=shape, oracle="c01"), name="S/var/" + sid, uf=True, cover=["solved"], weight=20))
     from . import xval
     out += xval.instances("C01", tier)
     if tier == "thorough":
